@@ -412,6 +412,57 @@ def run(ctx):
                 witness = witness or {"kind": "blind", "line": lines[i], "decrypted_coeff0": got0, "want": want0}
         ctx.cov["blind_rotations"] = nb
         ctx.cov["blind_entry_oracle_checked"] = n_entry
+        # ---- measured noise of the executed blind rotation vs the proved worst-case bound (C14.blind_rotation_noise, NoiseB.blindBound)
+        import math
+        nl_ = []
+        meta_n = []
+        for i, c in enumerate(bcases):
+            it = outl[i].split()
+            mt = mout[i].split() if i < len(mout) else []
+            if len(it) < 2 or it[1] != "ok" or len(mt) < 2 or mt[1] != "ok":
+                continue
+            d = kv(it)
+            md = kv(mt)
+            b = c.get("b", 19)
+            pt = [ints(x) for x in d["pt"].split("|")]
+            want = [ints(x) for x in md["data"].split("|")]
+            sz = len(pt)
+            mod = 1 << (b * sz)
+            worst = 0
+            for j in range(len(pt[0])):
+                vi = sum(pt[l][j] << (b * (sz - 1 - l)) for l in range(sz))
+                vm = sum(want[l][j] << (b * (sz - 1 - l)) for l in range(len(want)))
+                e = (vi - vm) % mod
+                if e > mod // 2:
+                    e -= mod
+                worst = max(worst, abs(e))
+            meas = worst << (64 - b * sz) if b * sz <= 64 else worst >> (b * sz - 64)
+            kbrk = c.get("kbrk", 3 * b)
+            efresh = 20 << max(0, 64 - kbrk)
+            nl_.append(f"{len(nl_)} noise blind n={c['nglwe']} rank={c['rank']} dnum={c.get('rows', 2)} b={b} k={c.get('kres', 2 * b)} hw={c['nglwe']} "
+                       f"nlwe={c['nlwe']} blocks={max(1, c['nlwe'] // c['block'])} e={efresh} logdelta=0")
+            meta_n.append((i, meas))
+        rc4, nout, _ = ctx.run_lines(drv, [], nl_)
+        worst_ratio = None
+        n_cmp = 0
+        max_meas = 0
+        for j, (i, meas) in enumerate(meta_n):
+            t = kv(nout[j].split()) if j < len(nout) else {}
+            if "bound" not in t:
+                broken.append(f"noise bound not evaluated: {nl_[j]}")
+                continue
+            bound = int(t["bound"])
+            n_cmp += 1
+            max_meas = max(max_meas, meas)
+            if meas > bound:
+                ctx.oracle_failures += 1
+                witness = witness or {"kind": "blind-noise", "line": lines[i], "measured_units_2^-64": meas, "proved_bound": bound}
+            ratio = math.log2(bound) - math.log2(max(meas, 1))
+            worst_ratio = ratio if worst_ratio is None else min(worst_ratio, ratio)
+        ctx.cov["blind_noise"] = {"cases_compared": n_cmp, "units": "2^-64 of the torus, max over coefficients",
+                                  "max_measured_log2": round(math.log2(max(max_meas, 1)) - 64, 2),
+                                  "smallest_margin_bits (log2 bound - log2 measured)": None if worst_ratio is None else round(worst_ratio, 2),
+                                  "bound": "NoiseB.blindBound + one normalisation unit per product (pdriver noise blind), fresh key error 20 units of 2^-k_brk"}
         ctx.samples.append({"request": lines[0], "implementation": outl[0][:200], "model": mout[0][:200] if mout else None})
 
     if broken or witness:
